@@ -6,6 +6,7 @@ assess_costs.py as repaired by the `fix:` commit 0eef720 (memo cleared when the 
 the original code violated the history clause, known_findings.json F02).
 -/
 import Paroxy.Proofs.Costs
+import Paroxy.Proofs.CostsShared
 import Paroxy.Proofs.Imported
 namespace Paroxy.Props.C07
 open Paroxy Paroxy.Filter Paroxy.Costs
@@ -190,5 +191,127 @@ theorem C07_recommender (c : Ctx) (r : Relations) (strat : Strategy) (st st' : S
     refine ⟨rfl, ?_, ?_, e2⟩
     · rw [e1]; rfl
     · rw [C07_knowledge_current]; rfl
+
+/-! ### The knowledge set SHARED with the filter and mutated in place (round 10, DESIGN §11.11 E2)
+
+`SState` (Model/CostsShared.lean): a heap of set objects, the address the assessor holds, the memo.
+`mutateKnowledge addr add del` changes an object in place without telling the assessor; only
+`setKnowledge` (and, the `lru_cache` being one per class, `foreignClear`: another instance constructed
+or set) clears the memo. `e.1` in a run is the knowledge the assessor READS at that step: the content
+of the pointed-to object then, in-place changes included. -/
+
+/-- An in-place change of the pointed-to object is observed at once (the knowledge read is the new
+content), and the memo is left as it is; a change of any other object is not observed. -/
+theorem C07_shared_mutation (strat : Strategy) (progs : List (Codes × TaxaSpans)) (s : SState) (a : Nat)
+    (add del : List Codes) :
+    (sstep strat progs s (.mutateKnowledge a add del)).1.memo = s.memo ∧
+    (sstep strat progs s (.mutateKnowledge a add del)).1.ptr = s.ptr ∧
+    (sstep strat progs s (.mutateKnowledge a add del)).1.knowledge =
+      if a = s.ptr then mutateSet s.knowledge add del else s.knowledge := by
+  refine ⟨rfl, rfl, ?_⟩
+  simp only [sstep, SState.knowledge, heapGet_heapSet]
+  split
+  · rename_i h; subst h; rfl
+  · rfl
+
+/-- **Exact characterisation of the memo.** For EVERY sequence of operations (in-place mutations
+included), the memoised assessor returns, step by step, exactly what the snapshot machine returns:
+the cost of a taxon is its pure cost under the knowledge AS IT WAS when that taxon was first costed
+(by `taxon_cost` or inside an assessment) since the memo was last cleared (`gCost`: a taxon without
+snapshot is costed under the current knowledge, which becomes its snapshot; a taxon with a snapshot is
+costed under it; `setKnowledge` / `foreignClear` drop all snapshots; nothing else touches them). -/
+theorem C07_shared_stale_characterised (strat : Strategy) (progs : List (Codes × TaxaSpans)) (h : Heap) (p : Nat)
+    (ops : List SOp) :
+    srun strat progs { heap := h, ptr := p, memo := [] } ops =
+      grun strat progs { heap := h, ptr := p, snap := [] } ops :=
+  srun_grun strat progs ops _ _ ⟨rfl, rfl, rfl⟩
+
+/-- Reading of the snapshot machine, `taxon_cost`: the value returned is the pure cost under the
+taxon's snapshot if it has one, under the current knowledge otherwise — and in the latter case the
+current knowledge is recorded; an existing snapshot is never replaced. -/
+theorem C07_shared_snapshot_cost (strat : Strategy) (progs : List (Codes × TaxaSpans)) (g : GState) (t : Codes) :
+    (gstep strat progs g (.taxonCost t)).2 = .cost (taxonCost strat (snapOf g.snap g.knowledge t) t) ∧
+    dictGet? (gstep strat progs g (.taxonCost t)).1.snap t = some (snapOf g.snap g.knowledge t) ∧
+    ∀ t' K0, dictGet? g.snap t' = some K0 → dictGet? (gstep strat progs g (.taxonCost t)).1.snap t' = some K0 := by
+  refine ⟨rfl, ?_, ?_⟩
+  · simp only [gstep, gCost, snapOf]
+    cases hg : dictGet? g.snap t with
+    | some K0 => simp only [hg]
+    | none => simp only [dictGet?_append_single, hg, if_true]
+  · intro t' K0 h0
+    simp only [gstep, gCost]
+    cases hg : dictGet? g.snap t with
+    | some K1 => exact h0
+    | none => simp only [dictGet?_append_single, h0]
+
+/-- The life of the snapshots, for every step: `set_imparted_knowledge` and a foreign clear drop them all; an
+in-place mutation leaves them as they are (that is the staleness); a `taxon_cost` or a whole assessment
+only EXTENDS them (`SnapExt`): no recorded snapshot is replaced, and every new one records the knowledge
+read at that step. -/
+theorem C07_shared_snapshots (strat : Strategy) (progs : List (Codes × TaxaSpans)) (g : GState) (op : SOp) :
+    match op with
+    | .setKnowledge _ => (gstep strat progs g op).1.snap = []
+    | .foreignClear => (gstep strat progs g op).1.snap = []
+    | .mutateKnowledge _ _ _ => (gstep strat progs g op).1.snap = g.snap
+    | .taxonCost _ => SnapExt g.knowledge g.snap (gstep strat progs g op).1.snap
+    | .assess _ => SnapExt g.knowledge g.snap (gstep strat progs g op).1.snap := by
+  cases op with
+  | setKnowledge a => rfl
+  | foreignClear => rfl
+  | mutateKnowledge a add del => rfl
+  | taxonCost t => exact gCost_ext strat g.knowledge g.snap t
+  | assess sel => exact gAssess_ext strat progs g.knowledge sel g.snap
+
+/-- **Any disciplined history is sound**: if no cost is asked while the pointed-to object has been
+changed in place since the last `set_imparted_knowledge` (`disciplined`), every output is the pure
+function of the knowledge read at that step. -/
+theorem C07_shared_disciplined_sound (strat : Strategy) (progs : List (Codes × TaxaSpans)) (s : SState)
+    (hs : MemoOk strat s.view) (ops : List SOp) (hd : disciplined s.ptr false ops = true) :
+    ∀ e ∈ srun strat progs s ops, e.2.2 = pureOutS strat progs e.1 e.2.1 :=
+  disciplined_sound strat progs ops s false (fun _ => hs) hd
+
+/-- **`run_pipeline`, any number of times, in-place mutation included.** From ANY state (any stale memo,
+any pointer), every history made of rounds «the filter grows ITS knowledge set in place any number of
+times; `set_imparted_knowledge(that set)`; assess a selection; any `taxon_cost` queries» returns, at
+every step, the pure costs / ranking under the knowledge current at that step. -/
+theorem C07_shared_run_pipeline_sound (strat : Strategy) (progs : List (Codes × TaxaSpans)) (s : SState)
+    (addr : Nat) (rounds : List Round) :
+    ∀ e ∈ srun strat progs s (pipelineOps addr rounds), e.2.2 = pureOutS strat progs e.1 e.2.1 :=
+  disciplined_sound strat progs _ s true (fun h => by cases h) (pipelineOps_disciplined addr rounds s.ptr true)
+
+/-- The program `p.py` featuring the taxon `a/b`. -/
+def witnessProgs : List (Codes × TaxaSpans) := [(codesOf "p.py", [(codesOf "a/b", [])])]
+
+/-- set; assess; the filter imparts `a/b` in place; assess again WITHOUT `set_imparted_knowledge`. -/
+def witnessOps : List SOp :=
+  [.setKnowledge 0, .assess [codesOf "p.py"], .mutateKnowledge 0 [codesOf "a", codesOf "a/b"] [], .assess [codesOf "p.py"]]
+
+/-- **The gap of §11.6, exactly.** `update_filter` (impart `a/b`) followed by `assess` WITHOUT the
+`set_imparted_knowledge` that `run_pipeline` interposes: the second assessment still returns 3/4 for
+`p.py`, although the knowledge it reads now contains `a/b` (pure cost 0). The history is not
+`disciplined`. -/
+theorem C07_shared_direct_update_stale :
+    (srun .zeno witnessProgs { heap := [], ptr := 0, memo := [] } witnessOps).map (fun e => e.2.2.costs) =
+      [[], [3 / 4], [], [3 / 4]] ∧
+    (srun .zeno witnessProgs { heap := [], ptr := 0, memo := [] } witnessOps).map
+      (fun e => (pureOutS .zeno witnessProgs e.1 e.2.1).costs) = [[], [3 / 4], [], [0]] ∧
+    disciplined 0 false witnessOps = false := by
+  decide +kernel
+
+-- Non-vacuity. `C07_shared_disciplined_sound`: an empty memo is `MemoOk`, and a history with an in-place
+-- mutation FOLLOWED by a set is disciplined; so is one mutating an object the assessor does not point to.
+example : MemoOk .zeno ({ heap := [], ptr := 0, memo := [] } : SState).view := fun t v hv => by cases hv
+example : disciplined 0 false [.taxonCost [97], .mutateKnowledge 0 [[97]] [], .setKnowledge 0, .taxonCost [97]] = true := by
+  decide
+example : disciplined 0 false [.taxonCost [97], .mutateKnowledge 1 [[97]] [], .taxonCost [97]] = true := by decide
+-- `C07_shared_run_pipeline_sound`: two rounds on the witness program; the second imparts `a/b` in place:
+-- the costs are 3/4 then 0 (the run_pipeline discipline repairs the witness above).
+example : (srun .zeno witnessProgs { heap := [], ptr := 0, memo := [] }
+      (pipelineOps 0 [⟨[], [codesOf "p.py"], [codesOf "a/b"]⟩,
+                      ⟨[[codesOf "a", codesOf "a/b"]], [codesOf "p.py"], [codesOf "a/b"]⟩])).map (fun e => e.2.2.costs) =
+    [[], [3 / 4], [3 / 4], [], [], [0], [0]] := by decide +kernel
+-- `C07_shared_stale_characterised` / `C07_shared_snapshot_cost`: after the witness history the snapshot
+-- of `a/b` is the EMPTY knowledge of its first costing, not the current one.
+example : snapOf [(codesOf "a/b", [])] [codesOf "a", codesOf "a/b"] (codesOf "a/b") = [] := by decide +kernel
 
 end Paroxy.Props.C07
